@@ -109,6 +109,21 @@ def type_dump(t):
     return d
 
 
+_SYMBOL_CLASSES = ('DeferredTypeSymbol', 'Scalar', 'Array', 'VariableSymbol', 'ProcedureSymbol', 'DerivedTypeSymbol')
+
+
+def loose_type(t):
+    """type dump in which the *class* of a symbol inside kind / shape / initial does not matter (a copy may resolve a name
+    that is deferred in its source, e.g. DeferredTypeSymbol jpr -> Scalar jpr, or lose a name of an unpickled parent)"""
+    if isinstance(t, list):
+        if t and isinstance(t[0], str) and t[0] in _SYMBOL_CLASSES:
+            return ['Symbol'] + [loose_type(x) for x in t[1:]]
+        return [loose_type(x) for x in t]
+    if isinstance(t, dict):
+        return {k: loose_type(v) for k, v in t.items()}
+    return t
+
+
 class Inventory:
     """what a Sourcefile / ProgramUnit owns (independent walk, document order)"""
 
@@ -124,6 +139,8 @@ class Inventory:
         self.occurrences = []     # (TypedSymbol, where) for every occurrence in the IR
         self.attr_occurrences = []  # (TypedSymbol, 'symtab.<attr>') inside stored SymbolAttributes
         self._Scope, self._sym = Scope, sym
+        self._stack = []          # enclosing units / TypeDefs during the walk
+        self.declared = {}        # id(scope) -> lower-case names declared by a declaration node directly in that scope
         if is_sourcefile(obj):
             if obj.ir is not None:
                 self._section(obj.ir, 'Sourcefile')
@@ -146,10 +163,12 @@ class Inventory:
         self.units.append(u)
         self.scopes.append(u)
         self.scope_labels.append(f'{type(u).__name__}:{u.name.lower()}')
+        self._stack.append(u)
         for sec in ('docstring', 'spec', 'body', 'contains'):
             v = getattr(u, sec, None)
             if v is not None:
                 self._section(v, type(u).__name__)
+        self._stack.pop()
 
     def _section(self, value, owner):
         nodes, exprs, units = [], [], []
@@ -169,6 +188,12 @@ class Inventory:
             elif isinstance(n, ir.Associate):
                 self.associates.append(n)
         cname = type(n).__name__
+        pushed = isinstance(n, ir.TypeDef)
+        if pushed:
+            self._stack.append(n)
+        if cname in ('VariableDeclaration', 'ProcedureDeclaration') and self._stack:
+            self.declared.setdefault(id(self._stack[-1]), set()).update(
+                str(getattr(x, 'name', x)).lower() for x in n.symbols)
         for fname, v in walk.node_fields(n):
             nodes, exprs, units = [], [], []
             _roots(v, nodes, exprs, units)
@@ -180,6 +205,8 @@ class Inventory:
                 self._node(c)
             for u in units:
                 self._unit(u)
+        if pushed:
+            self._stack.pop()
 
     def _table(self, scope):
         for name, attrs in dict.items(scope.symbol_attrs):
@@ -189,8 +216,9 @@ class Inventory:
                 for e in exprs:
                     for x in walk.expr_walk(e):
                         if isinstance(x, self._sym.TypedSymbol):
-                            ek = ('member-entry' if '%' in name else 'imported-entry' if attrs.__dict__.get('imported')
-                                  else 'associate-name-entry' if type(scope).__name__ == 'Associate' else 'declared-entry')
+                            ek = ('declared-entry' if str(name).lower() in self.declared.get(id(scope), ()) else
+                                  'member-entry' if '%' in name else 'imported-entry' if attrs.__dict__.get('imported')
+                                  else 'associate-name-entry' if type(scope).__name__ == 'Associate' else 'undeclared-entry')
                             self.attr_occurrences.append((x, f'symtab.{k}:{ek}'))
 
     # -- observations
@@ -318,6 +346,14 @@ contains
   end subroutine lv_r
 end module lv_u
 """
+_AA_SRC = """
+subroutine lv_aa(a, b)
+  integer, intent(inout) :: a, b
+  associate(a => a)
+    b = a
+  end associate
+end subroutine lv_aa
+"""
 _S_SRC = """
 module lv_s
   implicit none
@@ -355,64 +391,97 @@ def known_defects():
     global _DEFECTS
     if _DEFECTS is not None:
         return _DEFECTS
+    import json
+    import os
     import pickle
+    # the runner's parent process evaluates the probes while it replays the known findings; its shards (same tree, same
+    # run) inherit the answer through the environment instead of repeating ~3 s of parsing each
+    envkey = 'LOKIVERIF_UNIT_DEFECTS'
+    tree = os.environ.get('VERIF_REPO', '/repo')
+    if os.environ.get(envkey):
+        try:
+            cached = json.loads(os.environ[envkey])
+            if cached.get('tree') == tree:
+                _DEFECTS = cached['defects']
+                return _DEFECTS
+        except ValueError:
+            pass
     from loki import Sourcefile
     from loki.expression import symbols as sym
     from loki.expression.operations import Cast
     from loki.types import DerivedType
-    d = {}
-    tsrc = Sourcefile.from_source(_T_SRC)
-    ksrc = Sourcefile.from_source(_K_SRC, definitions=tsrc.definitions)
-    k = ksrc['lv_k']
-    own = Inventory(k).owned_ids()
-    c = k.clone()
-    inv = Inventory(c)
-    toks = [(type(s).__name__, w, inv.token(s, [('src', own)])) for s, w in inv.occurrences]
-    d['dtsym-not-rescoped'] = any(cls == 'DerivedTypeSymbol' and t.startswith('FOREIGN') for cls, w, t in toks)
-    d['print-not-rescoped'] = any(w.startswith('PrintStmt') and t.startswith('FOREIGN') for cls, w, t in toks)
-    try:
+    def tmod_defs():
+        return list(Sourcefile.from_source(_T_SRC).definitions)
+
+    def clone_tokens():
+        k = Sourcefile.from_source(_K_SRC, definitions=tmod_defs())['lv_k']
+        own = Inventory(k).owned_ids()
+        inv = Inventory(k.clone())
+        return [(type(s).__name__, w, inv.token(s, [('src', own)])) for s, w in inv.occurrences]
+
+    def p_dtsym():
+        return any(cls == 'DerivedTypeSymbol' and t.startswith('FOREIGN') for cls, w, t in clone_tokens())
+
+    def p_print():
+        return any(w.startswith('PrintStmt') and t.startswith('FOREIGN') for cls, w, t in clone_tokens())
+
+    def p_cast():
         pickle.loads(pickle.dumps(Cast('real', (sym.IntLiteral(1),), kind=sym.IntLiteral(8))))
-        d['cast-unpicklable'] = False
-    except Exception:  # noqa
-        d['cast-unpicklable'] = True
-    plain = Sourcefile.from_source(_K_SRC)['lv_k']
-    try:
+        return False
+
+    def p_member():
+        plain = Sourcefile.from_source(_K_SRC)['lv_k']
         p = pickle.loads(pickle.dumps(plain))
-        d['member-parent-lost'] = p.members[0].parent is not p
-    except Exception:  # noqa
-        d['member-parent-lost'] = True
-    m = Sourcefile.from_source(_M_SRC)['lv_m']
-    try:
+        return p.members[0].parent is not p
+
+    def p_repickle():
+        m = Sourcefile.from_source(_M_SRC)['lv_m']
         pickle.dumps(pickle.loads(pickle.dumps(m)))
-        d['module-repickle-raises'] = False
-    except Exception:  # noqa
-        d['module-repickle-raises'] = True
-    mc = m.clone()
-    t = dict.get(mc.symbol_attrs, 'v')
-    d['typedef-link-to-source'] = isinstance(t.dtype, DerivedType) and t.dtype.typedef is m['lv_q']
-    pr = Sourcefile.from_source(_P_SRC, definitions=tsrc.definitions)['lv_p']
-    try:
-        d['procedure-link-dropped'] = (pickle.loads(pickle.dumps(pr)) != pr)
-    except Exception:  # noqa
-        d['procedure-link-dropped'] = True
-    # a module procedure calls a routine that the module imports by an unqualified USE; enrich() types the import but leaves the call name an
-    # unattached deferred symbol; __setstate__ -> rescope_symbols() attaches and resolves it, so the copy != the original
-    um = Sourcefile.from_source(_U_SRC)['lv_u']
-    um.enrich(list(Sourcefile.from_source(_T_SRC).definitions), recurse=True)
-    try:
+        return False
+
+    def p_typedef():
+        m = Sourcefile.from_source(_M_SRC)['lv_m']
+        t = dict.get(m.clone().symbol_attrs, 'v')
+        return isinstance(t.dtype, DerivedType) and t.dtype.typedef is m['lv_q']
+
+    def p_proclink():
+        pr = Sourcefile.from_source(_P_SRC, definitions=tmod_defs())['lv_p']
+        return pickle.loads(pickle.dumps(pr)) != pr
+
+    def p_rescoping():
+        # a module procedure calls a routine that the module imports by an unqualified USE; enrich() types the import but
+        # leaves the call name an unattached deferred symbol; __setstate__ -> rescope_symbols() attaches and resolves it
+        um = Sourcefile.from_source(_U_SRC)['lv_u']
+        um.enrich(tmod_defs(), recurse=True)
         kinds = [type(s).__name__ for s, w in Inventory(um).occurrences if w == 'CallStatement.name']
         kinds2 = [type(s).__name__ for s, w in Inventory(pickle.loads(pickle.dumps(um))).occurrences if w == 'CallStatement.name']
-        d['unpickle-rescoping-not-identity'] = kinds != kinds2
-    except Exception:  # noqa
-        d['unpickle-rescoping-not-identity'] = True
-    fsrc = Sourcefile.from_source(_T_SRC + _P_SRC)
-    fc = fsrc.clone()
-    t = dict.get(fc['lv_p'].symbol_attrs, 'lv_h')
-    d['clone-keeps-import-links-into-source'] = t is not None and getattr(t, 'module', None) is fsrc['lv_tm']
-    sm = Sourcefile.from_source(_S_SRC)['lv_s']
-    try:
-        d['selector-of-shadowing-associate-misscoped'] = (pickle.loads(pickle.dumps(sm)) != sm)
-    except Exception:  # noqa
-        d['selector-of-shadowing-associate-misscoped'] = True
+        return kinds != kinds2
+
+    def p_importlink():
+        fsrc = Sourcefile.from_source(_T_SRC + _P_SRC)
+        t = dict.get(fsrc.clone()['lv_p'].symbol_attrs, 'lv_h')
+        return t is not None and getattr(t, 'module', None) is fsrc['lv_tm']
+
+    def p_shadow_clone():
+        ac = Sourcefile.from_source(_AA_SRC)['lv_aa'].clone()
+        assoc = Inventory(ac).associates[0]
+        return assoc.associations[0][0].scope is assoc
+
+    def p_shadow_pickle():
+        sm = Sourcefile.from_source(_S_SRC)['lv_s']
+        return pickle.loads(pickle.dumps(sm)) != sm
+
+    d = {}
+    for key, fn in (('dtsym-not-rescoped', p_dtsym), ('print-not-rescoped', p_print), ('cast-unpicklable', p_cast),
+                    ('member-parent-lost', p_member), ('module-repickle-raises', p_repickle), ('typedef-link-to-source', p_typedef),
+                    ('procedure-link-dropped', p_proclink), ('unpickle-rescoping-not-identity', p_rescoping),
+                    ('clone-keeps-import-links-into-source', p_importlink),
+                    ('clone-attaches-selector-to-shadowing-associate', p_shadow_clone),
+                    ('selector-of-shadowing-associate-misscoped', p_shadow_pickle)):
+        try:
+            d[key] = bool(fn())
+        except Exception:  # noqa: a probe that cannot even run counts as 'root cause present' (trigger stays off)
+            d[key] = True
     _DEFECTS = d
+    os.environ[envkey] = json.dumps({'tree': tree, 'defects': d})
     return d
